@@ -138,12 +138,43 @@ def replay_native(workdir: pathlib.Path, module: str, call: str, params: Dict[st
     return p.returncode in (10, 11), p.stdout.strip()[-500:]
 
 
+def _native_smoke(report: common.Report, wd: pathlib.Path, conds: List[Cond]) -> None:
+    """CrossHair replaces functools.lru_cache by an uncached stand-in, so state kept in caches is invisible to it.  Harness modules may
+    declare  NATIVE_SMOKE = {condition name: [argument tuples]}  (finite argument spaces of cache-related conditions): those calls are
+    executed with plain CPython; a False/raise is a concretely demonstrated counterexample."""
+    seen = set()
+    for c in conds:
+        if (c.module, c.func, tuple(sorted(c.params.items()))) in seen:
+            continue
+        seen.add((c.module, c.func, tuple(sorted(c.params.items()))))
+        code = (f"import importlib, json\nm = importlib.import_module({c.module!r})\n"
+                f"print('@@' + json.dumps([list(a) for a in getattr(m, 'NATIVE_SMOKE', {{}}).get({c.func!r}, [])]))\n")
+        env = dict(os.environ)
+        env.update(c.params)
+        env["PYTHONPATH"] = f"{wd}:{common.VERIF}"
+        p = subprocess.run([common.PY, "-c", code], cwd=wd, env=env, stdout=subprocess.PIPE, stderr=subprocess.PIPE, text=True)
+        line = [l for l in p.stdout.splitlines() if l.startswith("@@")]
+        if not line:
+            continue
+        import json
+        n = 0
+        for args in json.loads(line[0][2:]):
+            call = f"{c.func}({', '.join(repr(a) for a in args)})"
+            ok, out = replay_native(wd, c.module, call, c.params)
+            n += 1
+            if ok:     # returned False or raised
+                _handle_cex(report, wd, c, dict(call=call, detail=f"native run (no tracing): {call} -> {out[:120]}"))
+        if n:
+            report.extra["native_smoke_runs"] = report.extra.get("native_smoke_runs", 0) + n
+
+
 def run_conditions(report: common.Report, conds: List[Cond], jobs: Optional[int] = None) -> None:
     """Run all conditions (and their reachability twins) in parallel and record verdicts in the report."""
     with common.scratch("nvxh_") as wd:
         mods = sorted({c.module for c in conds})
         for m in mods:
             materialise(m, wd)
+        _native_smoke(report, wd, conds)
         # schedule: twins first (cheap), then conditions sorted by decreasing budget
         work: List[Tuple[Cond, bool]] = []
         for c in conds:
